@@ -13,15 +13,16 @@ META = {
     "design_ref": "§6 C01, §5.1",
     "technique": "Lean 4 refinement theorem (RPN stack machine with global keys = nested-loop reference, via compiler "
     "correctness on the binary normal form) + differential correspondence at State level and on the public split path",
-    "text": "Lean theorems, for every splitter tree of any size and lists of any length: splitter2rpn emits the RPN of the "
-    "left-nested binary normal form (ordering_eq); the stack machine State.splits run on it equals tree evaluation with the "
-    "code's global `keys` handling (run_rpn); under the decidable tree predicate KeysOK the states (jobs, order, element of "
-    "every split field) equal the reference's nested loops and the machine raises the shape error iff the reference rejects "
-    "(C01_refines_ind / C01_refines); every tree with <= 4 fields is KeysOK (C01_keysOK_of_le4), so C01 holds at its stated "
-    "quantifier for lists of ANY length (C01_le4, C01_le4_values); rejection is characterised for every tree (C01_reject_iff, "
-    "C01_inner_mismatch); an empty field gives no job (C01_empty); other fields keep the base value (C01_other_fields_unchanged). "
-    "Beyond four fields the code's key bookkeeping can misalign: witness [[a,b],[c,[d,e]]] (C01_witness_5, D1, outside the "
-    "stated quantifier).  Tied to /repo by running State.prepare_states and the public Task.split(...)() path against the model.",
+    "text": "Lean theorems, for EVERY splitter tree (any number of fields, any nesting) and lists of any length: splitter2rpn emits "
+    "the RPN of the left-nested binary normal form (ordering_eq); the stack machine State.splits (every processed term carrying "
+    "its own keys, after the repair of D1) run on it equals tree evaluation, the keys being the fields left to right (run_rpn); "
+    "hence the states (jobs, order, element of every split field) equal the reference's nested loops and the machine raises the "
+    "shape error iff the reference rejects (C01_refines_ind / C01_refines / C01_values; C01_le4 is the stated quantifier); "
+    "rejection is characterised for every tree (C01_reject_iff, C01_inner_mismatch); an empty field gives no job (C01_empty); the "
+    "per-job task is the base task with exactly the state's fields replaced by the indexed element WHATEVER its value — None, 0, "
+    "'', [] included (C01_other_fields_unchanged, C01_substitutes_any_value; C01_witness_not_none documents what an `is not None` "
+    "lookup would lose).  C01_witness_5 documents the old global-keys machine on [[a,b],[c,[d,e]]] (D1, repaired: now a regression "
+    "case).  Tied to /repo by running State.prepare_states and the public Task.split(...)() path against the model.",
     "note": "Trusted: Lean kernel; hand-written model of state.py (StateAlg/Model.lean) incl. the abstraction of nested index "
     "tuples to flat rows; CPython semantics of zip / itertools.product / dict(zip()); generator reach (trees <= 6 fields, depth <= 4, "
     "lengths 0-3); 'before any job runs' is observed (task job directories, body executions), not proved.",
@@ -42,26 +43,26 @@ OBLIGATIONS = [
     for n in (
         "ordering_eq",
         "run_rpn",
-        "evKeys_aligned",
         "expand_norm",
         "evalBin_spec",
         "C01_refines_ind",
-        "C01_keysOK_of_le4",
         "C01_le4",
         "C01_reject_iff",
         "C01_inner_mismatch",
         "C01_empty",
         "C01_other_fields_unchanged",
         "C01_refines",
-        "C01_le4_values",
+        "C01_values",
         "C01_witness_5",
+        "C01_substitutes_any_value",
+        "C01_witness_not_none",
     )
 ]
 LEAN_TARGETS = ["PydraModel.Props.C01"]
 MODEL_TARGETS = ["PydraModel.StateAlg.Model", "PydraModel.StateAlg.Spec", "PydraModel.DriverUtil"]
 
 D1_WITNESS = sa.flat_case_from(
-    sa.O(sa.O(sa.F(0), sa.F(1)), sa.O(sa.F(2), sa.O(sa.F(3), sa.F(4)))), {0: 2, 1: 1, 2: 1, 3: 1, 4: 1}
+    sa.O(sa.O(sa.F(0), sa.F(1)), sa.O(sa.F(2), sa.O(sa.F(3), sa.F(4)))), {0: 2, 1: 1, 2: 3, 3: 1, 4: 2}
 )
 D33_REGRESSION = sa.flat_case_from(sa.O(sa.F(0), sa.O(sa.F(1))), {0: 2, 1: 1})  # fixed: singleton at a non-first position
 
@@ -69,7 +70,8 @@ NF_WEIGHTS = [1, 2, 2, 2, 3, 3, 3, 3, 4, 4, 4, 4, 4, 5, 6]
 
 
 def in_quantifier(case) -> bool:
-    return len(case["fields"]) <= 4 and all(nd == 1 and len(v) <= 3 for _, v, nd in case["fields"]) and not case["combiner"]
+    # since the repair of D1 (keys per stack entry) trees with 5-6 fields are gated too (C01_refines_ind holds for all trees)
+    return len(case["fields"]) <= 6 and all(nd == 1 and len(v) <= 3 for _, v, nd in case["fields"]) and not case["combiner"]
 
 
 def judge_recs(ctx, recs):
@@ -184,6 +186,25 @@ IOO_FAMILY = [
 ]
 
 
+def falsy_cases(rng, n):
+    """split lists whose ELEMENTS are None, 0, '', False, [], {} (reserved integers 9001-9006, see sa.ALPHABET), mixed with
+    ordinary integers, under random splitters over 1-3 fields"""
+    out = [
+        {"splitter": sa.F(0), "fields": [[0, [1, 9001, 3], 1]], "combiner": []},  # [1, None, 3]
+        {"splitter": sa.F(2), "fields": [[2, [9001, 9002, 9003, 9004, 9005, 9006], 1]], "combiner": []},
+        {"splitter": sa.O(sa.F(0), sa.F(1)), "fields": [[0, [9001, 5], 1], [1, [9004, 9002], 1]], "combiner": []},
+        {"splitter": sa.I(sa.F(0), sa.F(1)), "fields": [[0, [9001, 9001], 1], [1, [7, 9005], 1]], "combiner": []},
+    ]
+    while len(out) < n:
+        c = sa.flat_case(rng, rng.choice([1, 2, 2, 3]), 3, min_len=1)
+        for fld in c["fields"]:
+            fld[1] = [rng.choice(list(sa.ALPHABET)) if rng.random() < 0.5 else x for x in fld[1]]
+        o = sa.oracle_case(c)
+        if o.get("rejected") or len(o["rows"]) <= 12:
+            out.append(c)
+    return out[:n]
+
+
 def exhaustive_small(ctx):
     """every tree shape over <= 3 fields x every length assignment 0..2 (State level)"""
     import itertools
@@ -200,15 +221,16 @@ def exhaustive_small(ctx):
 def correspondence(ctx):
     core.assert_repo_loaded()
     # corpus first: D1 witness (outside the quantifier: a note, not a finding of C01), the repaired D33 witness
+    # D1 (repaired): [[a,b],[c,[d,e]]] with unequal lengths is a regression case that must agree with the reference
     w = sa.state_level(D1_WITNESS)
     orc = sa.oracle_case(D1_WITNESS)
-    d1 = w.get("rejected") or w["rows"] != orc["rows"]
-    ctx.extra["D1_witness_reproduces"] = bool(d1)
-    ctx.notes.append(
-        f"D1 witness [[a,b],[c,[d,e]]] (5 fields, outside C01's <=4-field quantifier): keys={w.get('keys')}, "
-        + ("differs from the reference" if d1 else "agrees with the reference (repaired?)")
-    )
-    items = [(D1_WITNESS, "state"), (D33_REGRESSION, "state"), (D33_REGRESSION, "public")]
+    if w.get("rejected") or w["rows"] != orc["rows"]:
+        ctx.violations.append({"kind": "fixed-defect-regressed", "finding": "D1", "impl": w, "case": D1_WITNESS})
+    items = [(D1_WITNESS, "state"), (D1_WITNESS, "public"), (D33_REGRESSION, "state"), (D33_REGRESSION, "public")]
+    # elements that are None / falsy: every job must receive exactly the matching element
+    for c in falsy_cases(ctx.rng, ctx.pick(12, 150)):
+        ctx.count("falsy-elements")
+        items += [(c, "state"), (c, "public")]
     items += [(c, lvl) for c in sa.corpus("c01.jsonl") for lvl in ("state", "public")]
     # systematic: inner products whose operands are compound, and every near-miss of every inner product (<= 4 fields)
     for c in IOO_FAMILY:
